@@ -17,6 +17,12 @@ for unit in reg["units"]:
     u.process(os.path.join(VERIF, "units", unit, "unit.rs.tpl"))
     for k, v in getattr(u, "shape_seen", {}).items():
         shapes.setdefault(k, {}).update(v)
+    for k, v in getattr(u, "fn_sha_seen", {}).items():
+        if not k.startswith("@"):
+            shapes.setdefault(k, {})["sha"] = v
+    for i in u.items:
+        if not i["file"].startswith("@"):
+            shapes.setdefault("@items", {})[f"{i['file']}::{i['path']}"] = i["sha256"]
     for k, v in getattr(u, "reviewed_seen", {}).items():
         shapes.setdefault(k, {})["reviewed_sha"] = v
     for k, v in getattr(u, "assumed_seen", {}).items():
